@@ -171,8 +171,102 @@ def core_specs():
     return S
 
 
+CHAIN_BASES = ['abs', 'norm1', 'norminf', 'norm2', 'square', 'sumsqr', 'exp', 'log', 'entropy', 'softplus', 'maxof', 'minof',
+               'gmean', 'power3', 'pexp', 'plog']
+CHAIN_CURV = dict(abs=1, norm1=1, norminf=1, norm2=1, square=1, sumsqr=1, exp=1, log=-1, entropy=-1, softplus=1, maxof=1,
+                  minof=-1, gmean=-1, power3=1, pexp=1, plog=-1)
+# chains of scalar multiplications, negations and affine additions; multipliers and their reciprocals are exact in binary
+MEANING_CHAINS = [[], ['mul', 2.0], ['neg', 'rmul', -0.5], ['mul', 0.5, 'sub_aff'], ['rsub_aff', 'neg'],
+                  ['mul', -2.0, 'rsub_aff', 'rmul', -1.0], ['rsub_c', 2.0], ['mul', -4.0], ['add_c', 1.0, 'mul', -1.0]]
+
+
+def chain_atom(a, base, x):
+    if base == 'abs':
+        return a.abs(x[0:1] - 0.5)
+    if base == 'norm1':
+        return a.norm(x, 1)
+    if base == 'norminf':
+        return a.norm(x, 'inf')
+    if base == 'norm2':
+        return a.norm(x, 2)
+    if base == 'square':
+        return a.square(x[0:1] + 1.0)
+    if base == 'sumsqr':
+        return a.sumsqr(x)
+    if base == 'exp':
+        return a.exp(x[0:1])
+    if base == 'log':
+        return a.log(x[0:1] + 3.0)
+    if base == 'entropy':
+        return a.entropy(x + 3.0)
+    if base == 'softplus':
+        return a.softplus(x[0:1])
+    if base == 'maxof':
+        return a.maxof(x[0], x[1] - 1.0, 0.5 * x[0] + 0.5 * x[1])
+    if base == 'minof':
+        return a.minof(x[0], x[1] - 1.0)
+    if base == 'gmean':
+        return a.gmean(x + 3.0)
+    if base == 'power3':
+        return a.power(x[0:1], 3)
+    if base == 'pexp':
+        return a.pexp(x[0:1], x[1:2] + 3.0)
+    if base == 'plog':
+        return a.plog(x[0:1] + 3.0, x[1:2] + 3.0)
+    raise ValueError(base)
+
+
+def chain_apply(f, chain, y):
+    k = 1.0
+    it = iter(chain)
+    for op in it:
+        if op == 'neg':
+            f, k = -f, -k
+        elif op == 'mul':
+            c = next(it)
+            f, k = f * c, k * c
+        elif op == 'rmul':
+            c = next(it)
+            f, k = c * f, k * c
+        elif op == 'add_c':
+            f = f + next(it)
+        elif op == 'rsub_c':
+            f, k = next(it) - f, -k
+        elif op == 'sub_aff':
+            f = f - (2.0 * y - 1.0)
+        elif op == 'rsub_aff':
+            f, k = (y + 0.5) - f, -k
+    return f, k
+
+
+def chain_desc(a, spec):
+    """k*atom(x) + affine (built by a chain of operations on the real expression) used on its convex side."""
+    base, chain, form = spec['base'], spec['chain'], spec['form']
+    x = a.dvar(2)
+    y = a.dvar(())
+    u = a.dvar(())
+    a.st(a.ge(x, -1.0))
+    a.st(a.le(x, 1.0))
+    a.st(a.ge(y, -2.0))
+    a.st(a.le(y, 2.0))
+    a.st(a.ge(u, -60.0))
+    a.st(a.le(u, 60.0))
+    g, k = chain_apply(chain_atom(a, base, x), chain, y)
+    convex = k * CHAIN_CURV[base] > 0
+    if form == 'cons':
+        a.st(a.le(g, u) if convex else a.ge(g, u))
+        (a.min if convex else a.max)(u + 0.25 * y)
+    elif form == 'rcons':
+        a.st(a.ge(u, g) if convex else a.le(u, g))
+        (a.min if convex else a.max)(u - 0.25 * y)
+    else:
+        (a.min if convex else a.max)(g)
+
+
 def desc_from_spec(spec):
     atom, form = spec['atom'], spec['form']
+    if atom == 'chain':
+        return lambda a: chain_desc(a, spec)
 
     def desc(a):
         VA = vec_atoms()
